@@ -588,7 +588,15 @@ func (t *Typechecker) VisitCastExpr(expr *ast.CastExpr) ast.VisitResult {
 
 func (t *Typechecker) VisitCastAssigneable(expr *ast.CastAssigneable) ast.VisitResult {
 	lhs := t.Evaluate(expr.Lhs)
-	if !ddptypes.Equal(ddptypes.TrueUnderlying(lhs), ddptypes.TrueUnderlying(expr.TargetType)) {
+	// same rule as VisitCastExpr: a typedef can only be converted to/from its own underlying type
+	castPossible := ddptypes.Equal(lhs, expr.TargetType)
+	if lhsTypeDef, isLhsTypeDef := ddptypes.CastTypeDef(lhs); isLhsTypeDef && ddptypes.Equal(lhsTypeDef.Underlying, expr.TargetType) {
+		castPossible = true
+	}
+	if targetTypeDef, isTargetTypeDef := ddptypes.CastTypeDef(expr.TargetType); isTargetTypeDef && ddptypes.Equal(targetTypeDef.Underlying, lhs) {
+		castPossible = true
+	}
+	if !castPossible {
 		t.err(ddperror.TYP_BAD_CAST, expr.GetRange(), "Falsche Nutzung einer Typumwandlung in einem Referenz Kontext")
 	}
 	t.latestReturnedType = expr.TargetType
